@@ -45,7 +45,8 @@ type c45Case struct {
 	Family string              `json:"family"`
 	Tree   *c45Node            `json:"tree"`
 	XML    string              `json:"xml"`
-	Routes map[string][]string `json:"routes"` // route name -> configured element names
+	Routes map[string][]string `json:"routes"`        // route name -> configured element names
+	Pad    int                 `json:"pad,omitempty"` // spelling of the configured names (index into c45Pads)
 }
 
 // c45Shapes returns every ordered rooted tree with exactly n nodes and depth <= maxDepth as a
@@ -198,7 +199,7 @@ func c45SameStrings(a, b []string) bool {
 
 // c45Check runs the real ExplodeXML on one case and returns the violation (if any) and the
 // outcome signature parts.
-func c45Check(raw []byte, ref []c45RefSeg, hasVoid bool, masks map[string]uint) (v *c45Viol, sig string, nontrivial bool) {
+func c45Check(raw []byte, ref []c45RefSeg, hasVoid bool, masks map[string]uint, pad int) (v *c45Viol, sig string, nontrivial bool) {
 	cfg := ExplodeConfig{}
 	lists := [c45Routes]*[]string{&cfg.ItemSegments, &cfg.PartnerSegments, &cfg.StatusSegments, &cfg.DateSegments}
 	// deterministic order of configured names
@@ -209,7 +210,7 @@ func c45Check(raw []byte, ref []c45RefSeg, hasVoid bool, masks map[string]uint) 
 		}
 		for r := 0; r < c45Routes; r++ {
 			if m&(1<<uint(r)) != 0 {
-				*lists[r] = append(*lists[r], nm)
+				*lists[r] = append(*lists[r], c45Pads[pad](nm))
 			}
 		}
 	}
@@ -386,6 +387,15 @@ func c45RoutesJSON(masks map[string]uint) map[string][]string {
 	return out
 }
 
+// c45Pads: spellings of a configured segment name. The configuration lists come from comma-separated settings and
+// the package trims every entry (sliceToSet), so a padded entry names the same segment as the exact one.
+var c45Pads = []func(string) string{
+	func(s string) string { return s },
+	func(s string) string { return " " + s },
+	func(s string) string { return s + " " },
+	func(s string) string { return "\t" + s + "\n" },
+}
+
 // ---------- enumeration ----------
 
 type c45Family struct {
@@ -395,6 +405,7 @@ type c45Family struct {
 	lex     bool     // texts index c45Lex x c45Tails (text split into several character-data chunks) instead of c45Texts
 	subsets []uint   // per-present-name route-subset alphabet (nil => use global configs)
 	global  []string // global config generators when subsets == nil
+	pads    []int    // spellings of the configured names (indices into c45Pads); nil = exact only
 }
 
 type c45Job struct {
@@ -430,7 +441,7 @@ func (c *c45Collector) add(key string, f c45Found) {
 func TestVerifC45(t *testing.T) {
 	rep := vh.New(t, "C45")
 	defer rep.Finish()
-	rep.Rule = "cases = (XML tree built by the generator, routing config); families: routing = every tree (names only, text x on every element) x every assignment of each present name to a subset of the 4 routes; chunks = every tree (3 names) with per-element leading text in 6 lexical forms x 3 tail texts x every assignment of each present name to {no route, Items, Dates}; content = every tree with per-element name x text{none,x,whitespace} x attribute{none,one} x every assignment of each present name to {no route, Items, Dates}; shape = every tree up to 5 elements (names only) x 3 global configs; signature = family | shape (parent vector) | verdict class | element count | per-route expected counts | expected field count; non-trivial = at least one element is routed, or the run deviates from the reference"
+	rep.Rule = "cases = (XML tree built by the generator, routing config); families: routing = every tree (names only, text x on every element) x every assignment of each present name to a subset of the 4 routes; chunks = every tree (3 names) with per-element leading text in 6 lexical forms x 3 tail texts x every assignment of each present name to {no route, Items, Dates}; content = every tree with per-element name x text{none,x,whitespace} x attribute{none,one} x every assignment of each present name to {no route, Items, Dates}; spelling = every tree (3 names, text {none,x}) x every assignment of each present name to {no route, Items, Dates} x 3 padded spellings of the configured names (the package trims configured names); shape = every tree up to 5 elements (names only) x 3 global configs; signature = family | shape (parent vector) | verdict class | element count | per-route expected counts | expected field count; non-trivial = at least one element is routed, or the run deviates from the reference"
 	rep.Assumptions = []string{
 		"well-formed input only (generator emits <N k=\"v\">text<children/>tail</N>; comments, processing instructions and CDATA only inside the chunks family; no namespaces)",
 		"an element's text is the concatenation of its direct character data (comments/PIs contribute nothing, CDATA its content)",
@@ -454,7 +465,10 @@ func TestVerifC45(t *testing.T) {
 		var ref []c45RefSeg
 		c45Ref(rc.Tree, &ref)
 		rep.Eval(1)
-		v, sig, nt := c45Check([]byte(sb.String()), ref, c45TreeHasVoid(rc.Tree), masks)
+		if rc.Pad < 0 || rc.Pad >= len(c45Pads) {
+			t.Fatalf("HARNESS-ERROR replay: pad %d", rc.Pad)
+		}
+		v, sig, nt := c45Check([]byte(sb.String()), ref, c45TreeHasVoid(rc.Tree), masks, rc.Pad)
 		rep.Outcome(sig, nt)
 		if v != nil {
 			rc.XML = sb.String()
@@ -474,6 +488,7 @@ func TestVerifC45(t *testing.T) {
 		chunkTexts[i] = i
 	}
 	chunks := &c45Family{name: "chunks", lex: true, texts: chunkTexts, attrs: []bool{false}, subsets: []uint{0, 1, 8}}
+	spelling := &c45Family{name: "spelling", texts: []int{0, 1}, attrs: []bool{false}, subsets: []uint{0, 1, 8}, pads: []int{1, 2, 3}}
 	shape := &c45Family{name: "shape", texts: []int{1}, attrs: []bool{false}, global: []string{"none", "all->Items", "all->all4"}}
 	// blocks are enumerated in this order (smallest first; a deadline cap can only cut the tail)
 	type block struct {
@@ -483,12 +498,13 @@ func TestVerifC45(t *testing.T) {
 	}
 	var blocks []block
 	for n := 1; n <= 3; n++ {
-		blocks = append(blocks, block{routing, n, 6}, block{content, n, 6}, block{chunks, n, 3})
+		blocks = append(blocks, block{routing, n, 6}, block{content, n, 6}, block{chunks, n, 3}, block{spelling, n, 3})
 	}
 	for n := 1; n <= 5; n++ {
 		blocks = append(blocks, block{shape, n, 6})
 	}
-	maxEl := map[string]string{"routing": "<=3 elements, 6 names", "content": "<=3 elements, 6 names", "chunks": "<=3 elements, names {A,B,ITEM}; per element leading text in 6 lexical forms (plain, split by a comment, CDATA, text+CDATA, split by a PI, none) x tail text after the children {none, whitespace, z}", "shape": "<=5 elements, 6 names"}
+	maxEl := map[string]string{"routing": "<=3 elements, 6 names", "content": "<=3 elements, 6 names", "chunks": "<=3 elements, names {A,B,ITEM}; per element leading text in 6 lexical forms (plain, split by a comment, CDATA, text+CDATA, split by a PI, none) x tail text after the children {none, whitespace, z}", "shape": "<=5 elements, 6 names",
+		"spelling": "<=3 elements, names {A,B,ITEM}, text {none,x}; every configured name spelled with a leading blank, a trailing blank, or tab+newline around it"}
 	if vh.Thorough() {
 		blocks = append(blocks, block{routing, 4, 4}, block{content, 4, 4})
 		maxEl["routing"] += "; 4 elements, names {A,B,ITEM,LINK}"
@@ -638,15 +654,25 @@ func c45RunJob(rep *vh.Report, col *c45Collector, j c45Job) {
 		var ref []c45RefSeg
 		c45Ref(tree, &ref)
 		hasVoid := c45TreeHasVoid(tree)
+		pads := fam.pads
+		if pads == nil {
+			pads = []int{0}
+		}
 		for _, masks := range configs {
-			evals++
-			v, sig, nt := c45Check(raw, ref, hasVoid, masks)
-			sg := fam.name + "|" + shapeStr + "|" + sig
-			sigs[sg] = sigs[sg] || nt
-			if v != nil {
-				col.add(v.key, c45Found{seq: j.seq + evals, detail: fam.name + ": " + strings.ReplaceAll(sb.String(), "\n", "\\n") + " :: " + v.detail, replay: c45Case{Family: fam.name, Tree: tree, XML: sb.String(), Routes: c45RoutesJSON(masks)}})
-			} else if nt && rep.WantSample() {
-				rep.Sample(map[string]any{"family": fam.name, "xml": sb.String(), "routes": c45RoutesJSON(masks), "outcome": sig})
+			for _, pad := range pads {
+				evals++
+				v, sig, nt := c45Check(raw, ref, hasVoid, masks, pad)
+				sg := fam.name + "|" + shapeStr + "|" + sig
+				sigs[sg] = sigs[sg] || nt
+				if v != nil {
+					key := v.key
+					if pad != 0 {
+						key += ":padded-config-name"
+					}
+					col.add(key, c45Found{seq: j.seq + evals, detail: fam.name + ": " + strings.ReplaceAll(sb.String(), "\n", "\\n") + " :: " + v.detail, replay: c45Case{Family: fam.name, Tree: tree, XML: sb.String(), Routes: c45RoutesJSON(masks), Pad: pad}})
+				} else if nt && rep.WantSample() {
+					rep.Sample(map[string]any{"family": fam.name, "xml": sb.String(), "routes": c45RoutesJSON(masks), "pad": pad, "outcome": sig})
+				}
 			}
 		}
 	}
